@@ -150,7 +150,7 @@ def inlinable(F):
         simple = b.id.rsplit("::", 1)[-1]
         if simple in words:
             continue
-        if any(s_[0] == "A" and s_[2][0] == "agg" and isinstance(s_[2][1], dict) and ("coroutine" in s_[2][1] or "coroutine_closure" in s_[2][1])
+        if any(s_[0] == "A" and s_[1] == [0] and s_[2][0] == "agg" and isinstance(s_[2][1], dict) and ("coroutine" in s_[2][1] or "coroutine_closure" in s_[2][1])
                for bl in b.blocks for s_ in bl["s"]):
             continue  # async fn shell: its code lives in the coroutine body
         if b.n > MAX_CALLEE_BLOCKS or b.n == 0:
